@@ -19,6 +19,7 @@ RULE = ('(A) random well-typed trees (generator of C05, depth<=4): every identif
 RULE += " Round 6: instances in which one occurrence of a repeated wildcard faces the wildcard's own identifier (expressions may mention it), in both orders."
 RULE += ' Round 7: every read-set probe repeated on a copy whose memory cells and other compound nodes carry is_term, as the cells returned by the evaluator do.'
 RULE += ' Round 8: assignments to a part of a 16-, 32-, 64- or 128-bit register or memory cell built through the ExprAff constructor: the result is well-formed and its read set contains the location.'
+RULE += ' Round 10: the read sets with and without memory are asked in either order (alternating by tree) and once more afterwards; the answers may not depend on what was asked before on the same object.'
 ASSUMPTIONS = ['irsem is the meaning of the IR', 'identifiers used only as segment selectors are not probed (flat memory)']
 
 
@@ -120,8 +121,19 @@ def probe_reads(sh, e, seedtag, flagged=True):
     is_aff = e.__class__.__name__ == 'ExprAff'
     val_e = e.src if is_aff else e
     try:
-        R1 = e.get_r(mem_read=True)
-        R0 = e.get_r(mem_read=False)
+        # the two questions in either order (by tree), and each once more afterwards: the answers may not depend on what was
+        # asked before on the same object
+        if len(c) % 2:
+            R0 = e.get_r(mem_read=False)
+            R1 = e.get_r(mem_read=True)
+        else:
+            R1 = e.get_r(mem_read=True)
+            R0 = e.get_r(mem_read=False)
+        again = (set(exprgen.canon(x) for x in e.get_r(mem_read=True)), set(exprgen.canon(x) for x in e.get_r(mem_read=False)))
+        first = (set(exprgen.canon(x) for x in R1), set(exprgen.canon(x) for x in R0))
+        sh.counters['read_sets_asked_again'] += 1
+        if again != first:
+            sh.violation('get_r-not-repeatable/%s' % e.__class__.__name__, 'get_r of %s: first (with memory, without) = %s, asked again = %s' % (e, [sorted(x) for x in first], [sorted(x) for x in again]), {'tree': c, 'probe': 'reads'})
     except Exception as exn:
         sh.violation('get_r-raises:%s/%s' % (type(exn).__name__, e.__class__.__name__), '%r on %s' % (exn, e), {'tree': c, 'probe': 'reads'})
         return
